@@ -229,7 +229,16 @@ def one_arm(g, kw, specfile, specline, src, it, arm, pat_text, is_alt, ops, wpv,
         for key, txt in contracts.items():
             if key.startswith('hint:%s:' % name) or key == 'hint:%s' % name:
                 first, _, rest = txt.partition('\n')
-                hints.append((0, first.strip(), rest))
+                first = first.strip()
+                if first.startswith('@loopstub'):
+                    # the arm's n-th loop (or the loop whose header holds the text: `hdr:TEXT`) is replaced by its summary (R4c)
+                    sel = first.split(None, 1)[1].strip()
+                    hints.append((int(sel) if sel.isdigit() else sel, '@loopstub', rest.strip()))
+                elif first.startswith('@replace'):
+                    o, nw = rest.strip().split(' ==> ', 1)   # R10
+                    hints.append((0, '@replace', (o.strip(), nw.strip())))
+                else:
+                    hints.append((0, first, rest))
         g.emit_segs(g.body_with_insertions(src, arm.body_lo, arm.body_hi, {}, hints, MOD), MOD)
         g.emit('}', 'spec', specfile, specline, False)
         g.end_block(c_lo, c_hi)
